@@ -21,12 +21,18 @@ fn sender_killed_mid_send_with_surviving_clone() {
         let mut st = 0;
         libc::waitpid(pid, &mut st, 0);
     }
-    // `survivor` is alive: the channel is not disconnected
+    // `survivor` is alive: the channel is not disconnected.  The abandoned message is not a message at all:
+    // the next thing the receiver sees is what the surviving sender sends.  (The survivor sends from its own
+    // thread: the dead sender's first packet still fills the socket buffer until the receiver reads it.)
+    let t = std::thread::spawn(move || {
+        survivor.send(b"still works").unwrap();
+        survivor.send(b"and again").unwrap();
+    });
     match rx.recv() {
         Err(IpcError::Disconnected) => panic!("Disconnected reported although a sender handle is still alive"),
-        Ok(v) => assert_eq!(v.len(), 64 << 20, "shortened payload presented as complete"),
-        Err(_) => {},
+        Ok(v) => assert_eq!(v, b"still works", "a shortened or mixed payload was presented as a message"),
+        Err(e) => panic!("the interrupted message surfaced as an error instead of being discarded: {:?}", e),
     }
-    survivor.send(b"still works").unwrap();
-    assert_eq!(rx.recv().unwrap(), b"still works");
+    assert_eq!(rx.recv().unwrap(), b"and again");
+    t.join().unwrap();
 }
